@@ -148,6 +148,10 @@ pub struct NScenario {
     /// (function index, destination function index): the function's code is `jmp destination`
     #[serde(default)]
     pub forwards: Vec<(usize, usize)>,
+    /// positions in `forwards` written as an import stub (`jmp *slot(%rip)` with the slot right
+    /// behind it, bound to the destination) instead of `jmp rel32`
+    #[serde(default)]
+    pub import_stubs: Vec<usize>,
     /// synthetic functions start with varied realistic first instructions
     #[serde(default)]
     pub prologues: bool,
@@ -267,6 +271,19 @@ pub fn generate(profile: &str, seed: u64, index: u64) -> NScenario {
         }
         if !forwards.is_empty() {
             classes.push("forwarder-target".into());
+        }
+    }
+    // (own stream: the rest of the scenario does not depend on it)
+    let mut import_stubs: Vec<usize> = Vec::new();
+    if pitch >= 16 {
+        let mut srng = Rng::new(simos::rng::scenario_seed(seed, &format!("N/synth-stubs/{profile}"), index));
+        for i in 0..forwards.len() {
+            if srng.chance(1, 2) {
+                import_stubs.push(i);
+            }
+        }
+        if !import_stubs.is_empty() {
+            classes.push("import-stub-target".into());
         }
     }
     let with_real = matches!(profile, "C02" | "C03" | "C12" | "C17") && rng.chance(1, 2) || (profile == "C01" && rng.chance(1, 5));
@@ -528,6 +545,7 @@ pub fn generate(profile: &str, seed: u64, index: u64) -> NScenario {
         targets,
         bystanders,
         forwards,
+        import_stubs,
         prologues: !tight,
         pitch,
         lifetimes,
@@ -1038,9 +1056,13 @@ pub fn setup_memory(sc: &NScenario) -> Result<(), String> {
         // entry instructions vary like those of compiled functions (seeded by position)
         arena::write_fn_with_prologue(*a, *id, if sc.prologues { (k * 7 + (*a as usize >> 4)) % arena::PROLOGUES.len() } else { 0 });
     }
-    for (f, d) in &sc.forwards {
+    for (i, (f, d)) in sc.forwards.iter().enumerate() {
         if let (Some((fa, _)), Some((da, _))) = (sc.funcs.get(*f), sc.funcs.get(*d)) {
-            arena::write_jmp_fn(*fa, *da);
+            if sc.import_stubs.contains(&i) && sc.pitch >= 16 {
+                arena::write_import_stub(*fa, *da);
+            } else {
+                arena::write_jmp_fn(*fa, *da);
+            }
         }
     }
     for (b, p) in &sc.arenas {
